@@ -2,6 +2,7 @@ package spec
 
 import (
 	"fmt"
+	"slices"
 	"strings"
 	"sync"
 
@@ -200,8 +201,15 @@ func (t *SymbolTable) ensureDistinctDefs() error {
 		}
 	}
 
-	for val, defs := range reverse {
-		if len(defs) > 1 {
+	// Report the duplicated values in a fixed order, not in the iteration order of the map.
+	vals := make([]string, 0, len(reverse))
+	for val := range reverse {
+		vals = append(vals, val)
+	}
+	slices.Sort(vals)
+
+	for _, val := range vals {
+		if defs := reverse[val]; len(defs) > 1 {
 			poses := generic.Transform(defs, func(def *TerminalDef) string {
 				return fmt.Sprintf("  %s: %s", def.Pos, def.Terminal)
 			})
